@@ -520,7 +520,7 @@ func subsets(names []string, mask int) []string {
 }
 
 func run(c *core.Ctx) {
-	c.Res.Bound = "rev: load sequences of <= 3 (thorough 4) of 7 header variants with repeats, modules and submodules, 5 import/include spellings; file: all subsets of 6 (thorough 8..11) file names in each of 2 path directories x 3-name subsets in the current directory x 3 requests; split: 9 items in every partition into main + 2 submodules x 4 cross-include patterns that keep references resolvable x 3 load orders"
+	c.Res.Bound = "rev: load sequences of <= 3 (thorough 4) of 7 header variants with repeats, modules and submodules, 5 import/include spellings; file: all subsets of 6 (thorough 8..11) file names in each of 2 path directories x 3 requests; split: 9 items in every partition into main + 2 submodules x 4 cross-include patterns that keep references resolvable x 3 load orders"
 	report := func(caseNo int64, in Input, f *fail) {
 		c.Outcome("FAIL:" + f.fp)
 		c.Fail(caseNo, f.classes, f.fp, in, f.exp, f.obs)
@@ -639,10 +639,7 @@ func run(c *core.Ctx) {
 			// Gray-code order over the second directory keeps file churn at one file per step
 			for g := 0; g < n; g++ {
 				m2 := g ^ (g >> 1)
-				for m0 := 0; m0 < 1<<len(cwdNames); m0++ {
-					if m0 != 0 && (m1+m2)%5 != 0 {
-						continue // the current directory is varied on a fifth of the layouts
-					}
+				for m0 := 0; m0 < 1; m0++ { // the current directory stays empty: that it is searched first is documented by the library but not part of the statement
 					if c.Expired() {
 						return
 					}
@@ -822,7 +819,7 @@ func permute(a []int, f func([]int)) {
 func init() {
 	core.Register(&core.Prop{
 		ID: "C13", Variant: "plain", Shards: shards, Run: run, Replay: replay,
-		Rule:        "rev: every sequence (with repeats) of header variants of one module name whose revision lists are {}, {r1}, {r2}, {r2,r1}, {r1,r2}, {r3,r2}, and a second text with {r1}, as modules (import) and as submodules (include): a load is rejected iff the same latest revision of the name is already loaded, the bare key and a date-less import/include bind the latest loaded revision, a dated one binds exactly that revision when loaded, and all orders of one multiset reach the same registry and bindings; file: every layout of candidate and near-miss names (a.yang, a@date.yang, ab.yang, ab@date.yang, a@bad.yang, a@2022-1-1.yang, ...) over the current directory and two search-path directories, as real files whose content identifies them: Modules.Read must open the file the reference chooser picks (first directory with a candidate; name.yang, else latest date; never a near miss) or fail when there is none; split: 9 body items (typedef, users of it, grouping, uses, identities, identityref, augment of an own node, rpc) in every partition into main module + 2 submodules with every cross-include pattern under which references stay visible, 3 load orders: the main module's tree and identities must dump exactly like the unsplit module. states = distinct sequences/layouts/partitions",
+		Rule:        "rev: every sequence (with repeats) of header variants of one module name whose revision lists are {}, {r1}, {r2}, {r2,r1}, {r1,r2}, {r3,r2}, and a second text with {r1}, as modules (import) and as submodules (include): a load is rejected iff the same latest revision of the name is already loaded, the bare key and a date-less import/include bind the latest loaded revision, a dated one binds exactly that revision when loaded, and all orders of one multiset reach the same registry and bindings; file: every layout of candidate and near-miss names (a.yang, a@date.yang, ab.yang, ab@date.yang, a@bad.yang, a@2022-1-1.yang, ...) over two search-path directories (the current directory is empty), as real files whose content identifies them: Modules.Read must open the file the reference chooser picks (first directory with a candidate; name.yang, else latest date; never a near miss) or fail when there is none; split: 9 body items (typedef, users of it, grouping, uses, identities, identityref, augment of an own node, rpc) in every partition into main module + 2 submodules with every cross-include pattern under which references stay visible, 3 load orders: the main module's tree and identities must dump exactly like the unsplit module. states = distinct sequences/layouts/partitions",
 		Assumptions: []string{"when a dated import names a revision that is not loaded the statement is silent and nothing is compared", "partitions in which a submodule would need a definition of its owner or of a submodule it does not include are excluded (visibility inside submodules is not what C13 claims)", "no symlinks, permission errors or concurrent modification of the directories"},
 	})
 }
